@@ -806,8 +806,8 @@ pub fn run(ctx: &mut Ctx) {
     ctx.rule = "scripted (log p(x), log p(y), log q(y|x), log q(x|y)) quadruples incl. +-inf/NaN/huge/near-cancelling, state types f32/f64/i32/usize (NaN and -0.0 coordinates), float types f32/f64, injected acceptance draw u = k*2^-p (0, 1 ulp, max, random, floor(exp(ratio)*2^p)+{-1,0,1}, exact boundary ln u vs its neighbours); library proposal histories of 1..5 steps; finite kernels K=2..7 with generated pi (zeros) and asymmetric Q (zeros); non-trivial = finite |ratio| < 40 with 0<u<1-ulp, exact-boundary case, or kernel with asymmetric Q and non-uniform pi; distinct by case fingerprint".into();
     ctx.assume("decision compared only when the stated grouping in F, the alternative association in F and an f64 evaluation agree (otherwise counted ambiguous; old-or-new state still checked)");
     let t = ctx.tier;
-    ctx.section("scripted", "one step on scripted target/proposal with injected u: accept <=> ln u < ratio; state bitwise x or y; return value", t.pick(200_000, 20_000_000), 16, script_strategy, check_script);
-    ctx.section("scripted-history", "one chain object driven through 2..5 scripted steps; target, proposal, generator and (sometimes) current_state are overwritten through the public fields between steps", t.pick(40_000, 4_000_000), 16, hist_strategy, check_hist);
-    ctx.section("library-proposal", "IsotropicGaussian + Gaussian2D, candidate learnt from a clone of the chain's proposal, 1..5 steps incl. steps after a rejection", t.pick(20_000, 2_000_000), 16, lib_strategy, check_lib);
-    ctx.section("finite-kernel", "exact acceptance probability of the real step() by bisection over the representable u; = min(1, pi(y)Q(y,x)/pi(x)Q(x,y)); detailed balance; pi P = pi", t.pick(400, 40_000), 16, kernel_strategy, check_kernel);
+    ctx.section("scripted", "one step on scripted target/proposal with injected u: accept <=> ln u < ratio; state bitwise x or y; return value", t.pick(2_000_000, 60_000_000), 16, script_strategy, check_script);
+    ctx.section("scripted-history", "one chain object driven through 2..5 scripted steps; target, proposal, generator and (sometimes) current_state are overwritten through the public fields between steps", t.pick(400_000, 12_000_000), 16, hist_strategy, check_hist);
+    ctx.section("library-proposal", "IsotropicGaussian + Gaussian2D, candidate learnt from a clone of the chain's proposal, 1..5 steps incl. steps after a rejection", t.pick(200_000, 6_000_000), 16, lib_strategy, check_lib);
+    ctx.section("finite-kernel", "exact acceptance probability of the real step() by bisection over the representable u; = min(1, pi(y)Q(y,x)/pi(x)Q(x,y)); detailed balance; pi P = pi", t.pick(4_000, 120_000), 16, kernel_strategy, check_kernel);
 }
